@@ -57,6 +57,31 @@ def main():
     lock = open(os.path.join(common.VERIF, "build", ".check.lock"), "w")
     fcntl.flock(lock, fcntl.LOCK_EX)
     ck = common.Check(pid, args.tier)
+    # a check that does not come to an end says nothing - and must not look like a pass to whoever waits for it: after
+    # the budget (VERIF_BUDGET seconds; default 30 min quick, 5 h thorough) it reports that, as an alarm, and stops
+    import threading
+    budget = float(os.environ.get("VERIF_BUDGET", 1800 if args.tier == "quick" else 18000))
+
+    def out_of_time():
+        try:
+            sys.stdout.flush()
+            print()
+            os.makedirs(os.path.join(common.VERIF, "evidence", "replays"), exist_ok=True)
+            rp = os.path.join(common.VERIF, "evidence", "replays", f"{pid}-out-of-time.json")
+            json.dump({"property": pid, "kind": "no-failing-input-found",
+                       "no_longer_checks": [f"the {args.tier} check of {pid} did not finish within {int(budget)} s (a hang or a slow path in "
+                                            f"the code under test; {len(ck.violations)} violation(s) found so far)"],
+                       "violations_so_far": [v["what"] for v in ck.violations[:5]]}, open(rp, "w"), indent=1)
+            if ck.violations:
+                print(f"  {ck.violations[0]['what'][:300]}")
+            print(f"VIOLATION property={pid} replay={rp} no-failing-input-found")
+            print(f"{pid} [{args.tier}] rc=1 (out of time after {int(budget)} s)")
+            sys.stdout.flush()
+        finally:
+            os._exit(1)
+    timer = threading.Timer(budget, out_of_time)
+    timer.daemon = True
+    timer.start()
     if not args.no_build:
         ck.buildst = common.build()
     ck.proof = common.proof_status(pid, args.tier)
